@@ -899,6 +899,22 @@ Proof.
     + unfold tc_lookup; simpl. rewrite lookup_put_same. discriminate.
 Qed.
 
+(** an update that leaves the listener-relevant part of the spec alone - rules, server-level
+    ipFilter, XFF, cache size, maxConnections may all change - never restarts the listener: keep-alive
+    connections survive it *)
+Lemma rt_listen_eqb_refl : forall a, rt_listen_eqb a a = true.
+Proof.
+  intros [p k t m g]. unfold rt_listen_eqb; simpl.
+  rewrite !Z.eqb_refl, !String.eqb_refl. destruct k; reflexivity.
+Qed.
+
+Theorem hot_update_no_restart : forall l h1 h2,
+  need_restart {| rs_listen := l; rs_hot := h1 |} {| rs_listen := l; rs_hot := h2 |} = false /\
+  rt_reload {| rs_listen := l; rs_hot := h1 |} {| rs_listen := l; rs_hot := h2 |} = (0, true).
+Proof.
+  intros l h1 h2. unfold rt_reload, need_restart; simpl. rewrite rt_listen_eqb_refl. split; reflexivity.
+Qed.
+
 (** * The composite statements registered in props/C11.v *)
 
 Theorem old_generation_completes :
